@@ -67,6 +67,30 @@ module Nat =
   let ltb n0 m =
     (<=) (Stdlib.Int.succ n0) m
 
+  (** val max : int -> int -> int **)
+
+  let rec max n0 m =
+    (fun fO fS n -> if n=0 then fO () else fS (n-1))
+      (fun _ -> m)
+      (fun n' ->
+      (fun fO fS n -> if n=0 then fO () else fS (n-1))
+        (fun _ -> n0)
+        (fun m' -> Stdlib.Int.succ (max n' m'))
+        m)
+      n0
+
+  (** val min : int -> int -> int **)
+
+  let rec min n0 m =
+    (fun fO fS n -> if n=0 then fO () else fS (n-1))
+      (fun _ -> 0)
+      (fun n' ->
+      (fun fO fS n -> if n=0 then fO () else fS (n-1))
+        (fun _ -> 0)
+        (fun m' -> Stdlib.Int.succ (min n' m'))
+        m)
+      n0
+
   (** val divmod : int -> int -> int -> int -> int * int **)
 
   let rec divmod x y q u =
@@ -1374,6 +1398,176 @@ let kernel_wrs s c t0 k m k0 n0 a b =
 let matmul s c t0 m k n0 a b c0 =
   run_wrs s c0 (kernel_wrs s c t0 (dispatch c t0 m k n0) m k n0 a b)
 
+(** val tG : int **)
+
+let tG =
+  0
+
+(** val tL : int **)
+
+let tL =
+  Stdlib.Int.succ 0
+
+(** val tU : int **)
+
+let tU =
+  Stdlib.Int.succ (Stdlib.Int.succ 0)
+
+(** val find_kfirst : int -> int -> int -> int -> int **)
+
+let find_kfirst tl tr i j =
+  if (||) ((=) tl tL) ((=) tl tG)
+  then if (=) tr tL then j else 0
+  else if (=) tl tU then if (=) tr tL then Nat.max i j else i else 0
+
+(** val find_klast : int -> int -> int -> int -> int -> int -> int -> int **)
+
+let find_klast tl tr k r c i j =
+  if (=) tl tL
+  then if (=) tr tU
+       then Nat.min (Nat.min (add i r) (add j c)) k
+       else Nat.min (add i r) k
+  else if (||) ((=) tl tU) ((=) tl tG)
+       then if (=) tr tU then Nat.min (add j c) k else k
+       else k
+
+type btile = { bt_rows : int list; bt_cols : (int * ckind) list; bt_i : 
+               int; bt_R : int; bt_j : int; bt_C : int; bt_tagged : bool }
+
+(** val bt_kfirst : int -> int -> btile -> int **)
+
+let bt_kfirst tl tr t0 =
+  if t0.bt_tagged then find_kfirst tl tr t0.bt_i t0.bt_j else 0
+
+(** val bt_klast : int -> int -> int -> btile -> int **)
+
+let bt_klast tl tr k t0 =
+  if t0.bt_tagged
+  then find_klast tl tr k t0.bt_R t0.bt_C t0.bt_i t0.bt_j
+  else k
+
+(** val ttile_wr :
+    scalar -> int -> int -> int -> (int -> t) -> (int -> t) -> int -> int ->
+    int -> (int * ckind) -> wr **)
+
+let ttile_wr s w k n0 a b kf kl r = function
+| (j, k0) ->
+  let av = fun kk -> a (add (mul r k) kk) in
+  (match k0 with
+   | CVec ->
+     wr_store s (add (mul r n0) j) w
+       (vacc_from s kf (sub kl kf) av (fun kk ->
+         vload s b (add (mul kk n0) j)) (vzero s))
+   | CScal ->
+     wr_store1 s (add (mul r n0) j)
+       (sum_from s kf (sub kl kf) (fun kk ->
+         s.smul (av kk) (b (add (mul kk n0) j))) s.s0)
+   | CMask rem ->
+     let m = make_maska w rem in
+     wr_maskstore s w m (add (mul r n0) j)
+       (vacc_from s kf (sub kl kf) av (fun kk ->
+         vmaskload s w m b (add (mul kk n0) j)) (vzero s)))
+
+(** val btile_wrs :
+    scalar -> int -> int -> int -> int -> int -> (int -> t) -> (int -> t) ->
+    btile -> wr list **)
+
+let btile_wrs s w k n0 tl tr a b t0 =
+  let kf = bt_kfirst tl tr t0 in
+  let kl = bt_klast tl tr k t0 in
+  flat_map (fun r -> map (ttile_wr s w k n0 a b kf kl r) t0.bt_cols)
+    t0.bt_rows
+
+(** val col_blocks :
+    int -> int -> int -> bool -> bool -> bool -> bool -> int list -> int ->
+    int -> btile list **)
+
+let col_blocks w nc n0 masked tag0 tag1 tagm rows i r =
+  let n1 = mul (Nat.div n0 (mul nc w)) (mul nc w) in
+  let n2 = mul (Nat.div n0 w) w in
+  app
+    (map (fun j -> { bt_rows = rows; bt_cols =
+      (map (fun v -> ((add j (mul v w)), CVec)) (seq 0 nc)); bt_i = i; bt_R =
+      r; bt_j = j; bt_C = (mul nc w); bt_tagged = tag0 })
+      (loop_starts 0 n1 (mul nc w)))
+    (app
+      (map (fun j -> { bt_rows = rows; bt_cols = ((j, CVec) :: []); bt_i = i;
+        bt_R = r; bt_j = j; bt_C = w; bt_tagged = tag1 })
+        (loop_starts n1 n2 w))
+      (if masked
+       then map (fun j -> { bt_rows = rows; bt_cols = ((j, (CMask
+              (sub n0 n2))) :: []); bt_i = i; bt_R = r; bt_j = j; bt_C = w;
+              bt_tagged = tagm }) (loop_starts n2 n0 (sub n0 n2))
+       else map (fun j -> { bt_rows = rows; bt_cols = ((j, CScal) :: []);
+              bt_i = i; bt_R = r; bt_j = j; bt_C = (Stdlib.Int.succ 0);
+              bt_tagged = tagm }) (loop_starts n2 n0 (Stdlib.Int.succ 0))))
+
+(** val tmatmul_tiles : cfg -> ety -> bool -> int -> int -> btile list **)
+
+let tmatmul_tiles c t0 masked m n0 =
+  let w = best_vsize c t0 n0 in
+  let nr = num_simd_rows c w m in
+  let nc = num_simd_cols c w m n0 in
+  let rB =
+    mul nr (Stdlib.Int.succ (Stdlib.Int.succ (Stdlib.Int.succ
+      (Stdlib.Int.succ 0))))
+  in
+  let m0 = mul (Nat.div m rB) rB in
+  let m1 =
+    mul
+      (Nat.div m (Stdlib.Int.succ (Stdlib.Int.succ (Stdlib.Int.succ
+        (Stdlib.Int.succ 0))))) (Stdlib.Int.succ (Stdlib.Int.succ
+      (Stdlib.Int.succ (Stdlib.Int.succ 0))))
+  in
+  app
+    (flat_map (fun i ->
+      col_blocks w nc n0 masked (negb masked) (negb masked) (negb masked)
+        (seq i rB) i rB) (loop_starts 0 m0 rB))
+    (app
+      (flat_map (fun i ->
+        col_blocks w nc n0 masked (negb masked) true true
+          (seq i (Stdlib.Int.succ (Stdlib.Int.succ (Stdlib.Int.succ
+            (Stdlib.Int.succ 0))))) i (Stdlib.Int.succ (Stdlib.Int.succ
+          (Stdlib.Int.succ (Stdlib.Int.succ 0)))))
+        (loop_starts m0 m1 (Stdlib.Int.succ (Stdlib.Int.succ (Stdlib.Int.succ
+          (Stdlib.Int.succ 0))))))
+      (col_blocks w nc n0 masked false false false (seq m1 (sub m m1)) m1
+        (sub m m1)))
+
+(** val tmatmul_masked : cfg -> ety -> int -> bool **)
+
+let tmatmul_masked c t0 n0 =
+  (&&) c.masks
+    (negb ((<=) (Nat.modulo n0 (best_vsize c t0 n0)) (Stdlib.Int.succ 0)))
+
+(** val tmatmul_naive_tiles : int -> int -> btile list **)
+
+let tmatmul_naive_tiles m n0 =
+  flat_map (fun i ->
+    map (fun j -> { bt_rows = (i :: []); bt_cols = ((j, CScal) :: []); bt_i =
+      i; bt_R = (Stdlib.Int.succ 0); bt_j = j; bt_C = (Stdlib.Int.succ 0);
+      bt_tagged = true }) (seq 0 n0)) (seq 0 m)
+
+(** val tmatmul_wrs :
+    scalar -> cfg -> ety -> int -> int -> int -> int -> int -> (int -> t) ->
+    (int -> t) -> wr list **)
+
+let tmatmul_wrs s c t0 tl tr m k n0 a b =
+  let w = if t0.cplx then Stdlib.Int.succ 0 else best_vsize c t0 n0 in
+  let tiles =
+    if t0.cplx
+    then tmatmul_naive_tiles m n0
+    else tmatmul_tiles c t0 (tmatmul_masked c t0 n0) m n0
+  in
+  flat_map (btile_wrs s w k n0 tl tr a b) tiles
+
+(** val tmatmul :
+    scalar -> cfg -> ety -> int -> int -> int -> int -> int -> (int -> t) ->
+    (int -> t) -> (int -> t) -> int -> t **)
+
+let tmatmul s c t0 tl tr m k n0 a b c0 =
+  run_wrs s c0 (tmatmul_wrs s c t0 tl tr m k n0 a b)
+
 (** val run_matmul_Z :
     cfg -> ety -> int -> int -> int -> z list -> z list -> z list **)
 
@@ -1427,3 +1621,29 @@ let run_best_vsize c =
         (Stdlib.Int.succ
         0))))))))))))))))))))))))))))))))))))))))))))))))))))))))))))))))))))))))))))))))))
     (ty_double :: (ty_float :: (ty_int32 :: (ty_int64 :: []))))
+
+(** val run_tmatmul_Z :
+    cfg -> ety -> int -> int -> int -> int -> int -> z list -> z list -> z
+    list **)
+
+let run_tmatmul_Z c t0 tl tr m k n0 a b =
+  map
+    (Obj.magic tmatmul zS c t0 tl tr m k n0 (fun i ->
+      nth i (Obj.magic a) (Obj.magic Z0)) (fun i ->
+      nth i (Obj.magic b) (Obj.magic Z0)) (fun _ ->
+      Obj.magic (Zpos (XI (XO (XO (XO (XI (XO (XI (XI (XI (XI (XI (XI (XO (XI
+        (XO (XO XH)))))))))))))))))))
+    (seq 0 (add (mul m n0) (Stdlib.Int.succ (Stdlib.Int.succ 0))))
+
+(** val run_tmatmul_C :
+    cfg -> ety -> int -> int -> int -> int -> int -> (z * z) list -> (z * z)
+    list -> (z * z) list **)
+
+let run_tmatmul_C c t0 tl tr m k n0 a b =
+  map
+    (Obj.magic tmatmul zC c t0 tl tr m k n0 (fun i ->
+      nth i (Obj.magic a) (Obj.magic (Z0, Z0))) (fun i ->
+      nth i (Obj.magic b) (Obj.magic (Z0, Z0))) (fun _ ->
+      Obj.magic ((Zpos (XI (XO (XO (XO (XI (XO (XI (XI (XI (XI (XI (XI (XO
+        (XI (XO (XO XH))))))))))))))))), Z0)))
+    (seq 0 (add (mul m n0) (Stdlib.Int.succ (Stdlib.Int.succ 0))))
